@@ -372,10 +372,44 @@ def r12_11(ctx) -> None:
     ctx.ok("R12.11", "reads of original_value", f"{n} read(s) of the imported value outside BaseKey.__init__'s own parameter")
 
 
+KEY_STATE_FIELDS = ("_raw_value", "original_value", "_dict_value")
+
+
+def r12_13(ctx) -> None:
+    """R12.13  what a key object holds is fixed when it is constructed: the native key, the imported value and the JWK view
+    (`_raw_value`, `original_value`, `_dict_value`) are assigned in BaseKey.__init__ only.  A key "made public" by swapping its native key
+    afterwards keeps whatever its JWK view already materialised (d, p, q ...) - the view and the native key are no longer the same key."""
+    eng = ctx.eng
+    init = eng.prog.cls("rfc7517.models:BaseKey").methods.get("__init__")
+    if init is None:
+        raise AnalysisError("BaseKey.__init__ vanished")
+    n = 0
+    for fn in eng.prog.all_functions():
+        for node in fn_nodes(fn):
+            hit = None
+            if isinstance(node, ast.Attribute) and isinstance(node.ctx, (ast.Store, ast.Del)) and node.attr in KEY_STATE_FIELDS:
+                hit = node.attr
+            elif isinstance(node, ast.Call) and isinstance(node.func, ast.Name) and node.func.id in ("setattr", "delattr") and len(node.args) >= 2 \
+                    and const_value(node.args[1]) in KEY_STATE_FIELDS:
+                hit = const_value(node.args[1])
+            elif isinstance(node, ast.Call) and isinstance(node.func, ast.Attribute) and node.func.attr in ("update", "__setitem__", "pop", "clear", "setdefault") \
+                    and isinstance(node.func.value, ast.Attribute) and node.func.value.attr == "__dict__":
+                hit = "__dict__"
+            if hit is None:
+                continue
+            if fn is init:
+                n += 1
+                continue
+            ctx.fail("R12.13", fn, node, f"{fn.short} re-assigns `{hit}` of a key object after construction: the JWK view already built from the previous native key "
+                     f"(private members included) stays behind", construct=f"{hit} assigned in {fn.short}")
+    ctx.count("R12.13", n, 3, "assignments of the key state fields in BaseKey.__init__")
+
+
 def run(ctx) -> None:
     from .common import forwarding_discipline
     ctx.guard(forwarding_discipline, "R12.12", ['private', 'password', 'encoding', 'params'], 21)  # arguments are handed on under their own name (generic routing rule, rules/common.py)
     ctx.guard(r12_11)
+    ctx.guard(r12_13)
     # a key's JWK view holds only its own material: no method of a key class writes into an object shared with other keys / the caller
     from .c20 import r20_1, key_class_functions
     from ..effects import Effects
